@@ -985,7 +985,7 @@ class AstEval:
                     mod = await Function.hass.async_add_executor_job(importlib.import_module, imp.name)
                 else:
                     mod = sys.modules[imp.name]
-            self.sym_table[imp.name if imp.asname is None else imp.asname] = mod
+            self.assign_import(imp.name if imp.asname is None else imp.asname, mod)
 
     async def ast_importfrom(self, arg):
         """Execute from X import Y."""
@@ -995,7 +995,7 @@ class AstEval:
                 mod = await self.global_ctx.module_import(imp.name, arg.level)
                 if not mod:
                     raise ModuleNotFoundError(f"module '{imp.name}' not found")
-                self.sym_table[imp.name if imp.asname is None else imp.asname] = mod
+                self.assign_import(imp.name if imp.asname is None else imp.asname, mod)
             return
         if arg.module == "stubs" or arg.module.startswith("stubs."):
             for imp in arg.names:
@@ -1022,7 +1022,16 @@ class AstEval:
                     if name[0] != "_":
                         self.sym_table[name] = value
             else:
-                self.sym_table[imp.name if imp.asname is None else imp.asname] = getattr(mod, imp.name)
+                self.assign_import(imp.name if imp.asname is None else imp.asname, getattr(mod, imp.name))
+
+    def assign_import(self, name, value):
+        """Bind an imported name like an assignment does."""
+        if self.curr_func and name in self.curr_func.global_names:
+            self.global_sym_table[name] = value
+        elif name in self.sym_table and isinstance(self.sym_table[name], EvalLocalVar):
+            self.sym_table[name].set(value)
+        else:
+            self.sym_table[name] = value
 
     async def ast_if(self, arg):
         """Execute if statement."""
@@ -2169,6 +2178,11 @@ class AstEval:
                 for arg1 in arg.targets:
                     if isinstance(arg1, ast.Name):
                         local_names.add(arg1.id)
+            elif cls_name in {"Import", "ImportFrom"}:
+                for imp in arg.names:
+                    if imp.name != "*":
+                        local_names.add(imp.name if imp.asname is None else imp.asname)
+                        names.add(imp.name if imp.asname is None else imp.asname)
         for child in ast.iter_child_nodes(arg):
             await self.get_names_set(child, names, nonlocal_names, global_names, local_names)
 
